@@ -2,7 +2,7 @@
 PROP = "C15"
 LEVEL = "exploration"
 ENGINE = "pyvc+bounded"
-HARNESS_MODULES = []
+HARNESS_MODULES = ["contracts.c15_leaf_codecs"]
 
 
 def bounded(tier, seed, rep):
@@ -30,3 +30,19 @@ RULE = ("13 OneOf compositions with pairwise disjoint leading characters (incl. 
 TECHNIQUE = "round-trip contract (deserialize(serialize(v)) == (len, v), canonical order for rooms) evaluated on the real combinators over generated terms and type-directed values; bounded"
 LEVEL_TEXT = "exploration: the composite-combinator induction over decoder loops and strings is outside the installed solvers' reach; round trips are checked over generated terms and values, exhaustive for room partitions of small boards"
 LEVEL_NOTE = "trusted: the generators; scope as in the rule"
+
+
+_bounded0 = bounded
+
+
+def bounded(tier, seed, rep):
+    from contracts import c15_leaf_codecs
+    rep.coverage["ground_facts_validated_natively"] = c15_leaf_codecs.facts_validation()
+    _bounded0(tier, seed, rep)
+
+
+LEVEL_TEXT = ("exploration overall. Proved without bound (pyvc): HexInt, Spaces, IntSpaces, MultiDigit (7 base/digit configurations) "
+              "round-trip for ALL values, ALL positions in the data and ALL surrounding text (pre + s + rest), _to_base36 on its "
+              "one-digit range; the composite combinators (OneOf/Tupl/Seq/Grid), DecInt, Dict/FixStr, Rooms/ValuedRooms are bounded")
+TECHNIQUE = ("pyvc: leaf codec round-trip contracts over SMT strings (loop invariants with quantifiers, callee contract for "
+             "_to_base36, ground facts about hex()/int() validated natively); bounded: generated terms and type-directed values")
